@@ -121,6 +121,9 @@ class FilterScenario:
         self.fi = repo.fn(CFG, "default_code_filter")
         self.mod = repo.module(CFG)
         inline = {f.fq for f in self.mod.functions.values()}
+        for um in ("monkeytype.util", "monkeytype.compat"):  # helpers the filter may delegate to in the package's utility modules
+            if um in repo.modules:
+                inline |= {f.fq for f in repo.modules[um].functions.values()}
         self.ri = RepoInterp(repo, self.fi, inline=inline, call_hook=self.hook, may_fork=(), heap=True, max_depth=16)
         base_name = self.ri.on_name
         base_attr = self.ri.on_attr
